@@ -9,7 +9,7 @@ use crate::sem::{self, Built, SemCase};
 use serde_json::json;
 
 pub fn cfg(shard: usize) -> GenCfg {
-    let mut c = GenCfg { split_permille: 400, max_helpers: 2, ..GenCfg::default() };
+    let mut c = GenCfg { split_permille: 400, max_helpers: 2, opt_stress: true, ..GenCfg::default() };
     c.split_qual = if shard % 2 == 0 { MemQual::Superchip } else { MemQual::Bank(1 + (shard as u32 / 2) % 3) };
     c
 }
